@@ -349,7 +349,13 @@ class Check:
                         self.known_printed.append(key)
                         print("KNOWN-FINDING: property=%s %s" % (self.pid, k["text"]))
                     return
+        if not found_input and sum(1 for v in self.violations if not v[2]) >= 40:
+            return          # enough divergences recorded; keep searching for a concrete failing input
         self.violations.append((what, replay, found_input))
+
+    def n_found(self):
+        """violations with a concrete failing input (divergences of the correspondence do not stop the search)"""
+        return sum(1 for v in self.violations if v[2])
 
     def finish(self):
         wall = time.time() - self.t0
@@ -380,7 +386,10 @@ class Check:
         if self.violations:
             rc = 1
             os.makedirs(os.path.join(VERIF, "work", "replays"), exist_ok=True)
-            for i, (what, replay, found) in enumerate(self.violations[:5]):
+            # a concrete failing input, when the search found one, is THE report; the broken
+            # correspondences that led to it are kept in the evidence only
+            shown = [v for v in self.violations if v[2]] or self.violations
+            for i, (what, replay, found) in enumerate(shown[:5]):
                 path = os.path.join(VERIF, "work", "replays", "%s_%d_%d.json" % (self.pid, self.seed, i))
                 with open(path, "w") as f:
                     json.dump({"property": self.pid, "what": what, "replay": replay,
